@@ -328,7 +328,7 @@ impl Distribution<f64> for StudentsT {
     /// # Formula
     ///
     /// ```text
-    /// - ln(σ) + (v + 1) / 2 * (ψ((v + 1) / 2) - ψ(v / 2)) + ln(sqrt(v) * B(v / 2, 1 /
+    /// ln(σ) + (v + 1) / 2 * (ψ((v + 1) / 2) - ψ(v / 2)) + ln(sqrt(v) * B(v / 2, 1 /
     /// 2))
     /// ```
     ///
@@ -337,8 +337,8 @@ impl Distribution<f64> for StudentsT {
     fn entropy(&self) -> Option<f64> {
         // generalised Student's T is related to normal Student's T by `Y = μ + σ X`
         // where `X` is distributed as Student's T, plugging into the definition
-        // of entropy shows scaling affects the entropy by an additive constant `- ln σ`
-        let shift = -self.scale.ln();
+        // of entropy shows scaling affects the entropy by an additive constant `ln σ`
+        let shift = self.scale.ln();
         let result = (self.freedom + 1.0) / 2.0
             * (gamma::digamma((self.freedom + 1.0) / 2.0) - gamma::digamma(self.freedom / 2.0))
             + (self.freedom.sqrt() * beta::beta(self.freedom / 2.0, 0.5)).ln();
